@@ -32,6 +32,8 @@ class ClassLevelCache:
     # regardless of the similarity of their content, gets its own entry in these sets.
     done: Set[Module] = field(default_factory=set)
     pending: Set[Module] = field(default_factory=set)
+    # Modules whose visit raised, and the exception it raised.
+    failed: Dict[Module, Exception] = field(default_factory=dict)
 
 
 class ElabPass:
@@ -105,6 +107,12 @@ class ElabPass:
         if module in self.CLASS_LEVEL_CACHE.done:
             return module
 
+        # A Module whose earlier visit by this pass failed - or any of whose dependencies' did -
+        # may have been left half-rewritten. Report that original error again, rather than visiting,
+        # and potentially exporting, it in that state.
+        if module in self.CLASS_LEVEL_CACHE.failed:
+            raise self.CLASS_LEVEL_CACHE.failed[module]
+
         # Add `module` to our elab stack.
         # This is helpful even if (especially if) we find it's a circular dependency next.
         self.stack.append(module)
@@ -115,20 +123,27 @@ class ElabPass:
             return self.fail(msg)
         self.CLASS_LEVEL_CACHE.pending.add(module)
 
-        # Depth-first traverse instances, ensuring their targets are defined
-        for inst in module.instances.values():
-            self.elaborate_instance_base(inst)
-        for arr in module.instarrays.values():
-            self.elaborate_instance_base(arr)
-        for instbundle in module.instbundles.values():
-            self.elaborate_instance_base(instbundle)
+        try:
+            # Depth-first traverse instances, ensuring their targets are defined
+            for inst in module.instances.values():
+                self.elaborate_instance_base(inst)
+            for arr in module.instarrays.values():
+                self.elaborate_instance_base(arr)
+            for instbundle in module.instbundles.values():
+                self.elaborate_instance_base(instbundle)
 
-        # Traverse Bundle instances
-        for bundle in module.bundles.values():
-            self.elaborate_bundle_instance(bundle)
+            # Traverse Bundle instances
+            for bundle in module.bundles.values():
+                self.elaborate_bundle_instance(bundle)
 
-        # Run the pass-specific `elaborate_module`
-        result = self.elaborate_module(module)
+            # Run the pass-specific `elaborate_module`
+            result = self.elaborate_module(module)
+
+        except Exception as e:
+            # No longer pending - a later attempt is not a circular dependency - but remembered as failed.
+            self.CLASS_LEVEL_CACHE.pending.discard(module)
+            self.CLASS_LEVEL_CACHE.failed[module] = e
+            raise
 
         # Pop the hierarchy-stack and return it
         self.stack.pop()
